@@ -223,3 +223,16 @@ M('c20-duplicate-refusal-flag-or', 'C20', 'R4', 'falcon/app.py', _DUP_GUARD_HEAD
   "            if (\n                self._cors_enable\n                or len(\n")
 M('c20-duplicate-refusal-flag-negated', 'C20', 'R4', 'falcon/app.py', _DUP_GUARD_HEAD,
   "            if (\n                not self._cors_enable\n                and len(\n")
+
+# ---- wave 9 (s9-c20-1), R6 = C02 R4 shared: the Allow header the preflight copies into Access-Control-Allow-Methods is SET by the
+# automatic OPTIONS responder to the resource's own method list (append merges a provisional Allow written earlier in the cycle)
+_RESPONDERS = 'falcon/responders.py'
+_SET_ALLOW = "            resp.set_header('Allow', allowed)\n"
+M2('c20-sync-options-responder-appends-allow', 'C20', 'R6',
+   [{'file': _RESPONDERS, 'old': "        resp.set_header('Allow', allowed)\n        resp.set_header('Content-Length', '0')\n\n    return options_responder\n",
+     'new': "        resp.append_header('Allow', allowed)\n        resp.set_header('Content-Length', '0')\n\n    return options_responder\n"}], also=('C02',))
+M('c20-async-options-responder-appends-allow', 'C20', 'R6', _RESPONDERS, _SET_ALLOW, "            resp.append_header('Allow', allowed)\n", also=('C02',))
+M2('c20-both-options-responders-append-allow', 'C20', 'R6',
+   [{'file': _RESPONDERS, 'old': "resp.set_header('Allow', allowed)", 'new': "resp.append_header('Allow', allowed)", 'count': 2}], also=('C02',))
+M2('c20-options-responder-allow-from-live-list', 'C20', 'R6',
+   [{'file': _RESPONDERS, 'old': "resp.set_header('Allow', allowed)", 'new': "resp.set_header('Allow', ', '.join(allowed_methods))", 'count': 2}], also=('C02',))
